@@ -63,8 +63,17 @@ def check(run, model, tier):
                 if d and d.startswith(init.params[0] + '.'):
                     klass_attrs.add(d.split('.', 1)[1])
     slots = set()
+    ctor_locals = set()
     for n in walk_shallow(call.node):
         if isinstance(n, ast.Assign) and isinstance(n.value, ast.Call) and dotted(n.value.func) in {selfn + '.' + k for k in klass_attrs}:
+            for t in n.targets:
+                d = dotted(t)
+                if d and d.startswith(selfn + '.'):
+                    slots.add(d.split('.', 1)[1])
+                elif isinstance(t, ast.Name):
+                    ctor_locals.add(t.id)       # construct-then-assign through a local
+    for n in walk_shallow(call.node):
+        if isinstance(n, ast.Assign) and isinstance(n.value, ast.Name) and n.value.id in ctor_locals:
             for t in n.targets:
                 d = dotted(t)
                 if d and d.startswith(selfn + '.'):
@@ -77,72 +86,76 @@ def check(run, model, tier):
     assigns = [n for n in walk_shallow(call.node) if isinstance(n, ast.Assign)
                and any(dotted(t) == '%s.%s' % (selfn, slot) for t in n.targets)]
     run.floor('assignments of the singleton slot in __call__', len(assigns), 1)
+    from props.c27 import held_states
+    from sa.boolflow import _atoms
+    from sa.util import guarded_by_edge as _gbe, cfg_of as _cfg, local_defs as _ld
+    gc = _cfg(call)
+    slot_path = '%s.%s' % (selfn, slot)
+    # lock regions: `with <lock>` blocks (by containment) and explicit acquire()/release() pairs (by lock-depth dataflow)
+    def lock_of(expr):
+        d = dotted(expr)
+        if d and d.startswith(selfn + '.') and d.split('.', 1)[1] in locks:
+            return d
+        if d and (call.module.name, d) in model.module_bindings:
+            v = model.module_bindings[(call.module.name, d)]
+            if isinstance(v, ast.Call) and norm(v.func).split('.')[-1] in LOCK_CTORS:
+                return d
+        return None
+    withs = [w_ for w_ in walk_shallow(call.node) if isinstance(w_, ast.With) and any(lock_of(it.context_expr) for it in w_.items)]
+    acq = {n for n in gc.nodes if n.kind not in ('entry', 'exit', 'xexit', 'def') and
+           any(isinstance(c.func, ast.Attribute) and c.func.attr == 'acquire' and lock_of(c.func.value) for c in n.calls())}
+    rel = {n for n in gc.nodes if n.kind not in ('entry', 'exit', 'xexit', 'def') and
+           any(isinstance(c.func, ast.Attribute) and c.func.attr == 'release' and lock_of(c.func.value) for c in n.calls())}
+    depth = held_states(gc, acq, rel, 0)
+    per_call_lock = [d_ for d_, where in locks.items() if '__call__' in where]
+
+    def held(n):
+        if any(any(x is n.ast for x in ast.walk(w_)) for w_ in withs if n.kind != 'with' or n.ast is not w_):
+            return True
+        return bool(depth[n]) and min(depth[n]) >= 1 and n not in acq
+    if acq:
+        # an explicit acquire must be given back on every way out, also when the constructor raises (try/finally)
+        leaks = [p_ for p_, lab_ in gc.pred[gc.exit] + gc.pred[gc.xexit] if depth[p_] and max((d_ - (1 if p_ in rel else 0)) for d_ in depth[p_]) >= 1]
+        fin = [t_ for t_ in walk_shallow(call.node) if isinstance(t_, ast.Try) and t_.finalbody and any(isinstance(x, ast.Call) and isinstance(x.func, ast.Attribute) and x.func.attr == 'release'
+                                                                                                       for b_ in t_.finalbody for x in ast.walk(b_))]
+        ok_ = not leaks and bool(fin)
+        run.inst('ATOMIC.singleton-create', call, 'an explicitly acquired lock is released on every way out (try/finally)', ok_,
+                 '' if ok_ else ('__call__ acquires the singleton lock explicitly and can leave without releasing it (a constructor that raises, or a return inside the section): every later '
+                                 'first request of this singleton blocks for ever'), obligation=True)
     for a in assigns:
-        # enclosing with on a lock attribute
-        w = None
-        inner_tests = []
-        p = par.get(a)
-        chain = []
-        while p is not None and p is not call.node:
-            chain.append(p)
-            p = par.get(p)
-        lock_ok = False
-        why = 'assignment of the instance slot is not inside any `with <lock>`: two threads can both see the slot empty and both construct'
-        for i, p in enumerate(chain):
-            if isinstance(p, ast.With):
-                for it in p.items:
-                    d = dotted(it.context_expr)
-                    if d and d.startswith(selfn + '.') and d.split('.', 1)[1] in locks:
-                        created = locks[d.split('.', 1)[1]]
-                        if '__call__' in created:
-                            why = 'the lock %s is created inside __call__ (one lock per call protects nothing)' % d
-                        else:
-                            w = p
-                            inner_tests = chain[:i]
-                            lock_ok = True
-                    elif d and (call.module.name, d) in model.module_bindings:
-                        v = model.module_bindings[(call.module.name, d)]
-                        if isinstance(v, ast.Call) and norm(v.func).split('.')[-1] in LOCK_CTORS:
-                            w = p
-                            inner_tests = chain[:i]
-                            lock_ok = True
-                if w is not None:
-                    break
+        an = [n for n in gc.nodes if n.kind == 'stmt' and n.ast is a]
+        if not an:
+            raise AnalysisError('assignment of the singleton slot not found in the CFG')
+        an = an[0]
+        lock_ok = held(an) and not per_call_lock
+        why = ('the lock is created inside __call__ (one lock per call protects nothing)' if per_call_lock else
+               'assignment of the instance slot is not inside a critical section of the singleton lock: two threads can both see the slot empty and both construct')
         retest = False
         if lock_ok:
-            for t in inner_tests:
-                if isinstance(t, ast.If):
-                    ttest = t.test
-                    # a local computed *inside* the critical section from the shared slot stands for that read (`already_built = self.instance is not None`)
+            for t in gc.nodes:
+                if t.kind != 'test' or not held(t):
+                    continue
+                for lab in ('true', 'false'):
+                    if not _gbe(gc, an, t, lab):
+                        continue
+                    texpr = t.ast
+                    # a local computed *inside* the critical section from the shared slot stands for that read (`still_empty = self.instance is None`)
                     for _ in range(3):
-                        i0, p0 = strip_not(ttest)
+                        i0, p0 = strip_not(texpr)
                         if isinstance(i0, ast.Name):
-                            asg = [x for x in ast.walk(w) if isinstance(x, ast.Assign) and any(isinstance(tt, ast.Name) and tt.id == i0.id for tt in x.targets)]
-                            alldefs = [x for x in walk_shallow(call.node) if isinstance(x, ast.Assign) and any(isinstance(tt, ast.Name) and tt.id == i0.id for tt in x.targets)]
-                            if len(asg) == 1 and len(alldefs) == 1:
-                                ttest = asg[0].value if p0 else ast.UnaryOp(op=ast.Not(), operand=asg[0].value)
+                            dn = [m_ for m_ in gc.nodes if m_.kind == 'stmt' and isinstance(m_.ast, ast.Assign) and any(isinstance(tt, ast.Name) and tt.id == i0.id for tt in m_.ast.targets)]
+                            if len(dn) == 1 and held(dn[0]) and gc.dominates(dn[0], t):
+                                texpr = dn[0].ast.value if p0 else ast.UnaryOp(op=ast.Not(), operand=dn[0].ast.value)
                                 continue
                         break
-                    inner, pol = strip_not(ttest)
-                    cp_ = compare_parts(inner)
-                    if cp_ and cp_[1] in (ast.IsNot, ast.NotEq) and is_none(cp_[2]):
-                        # `not (slot is not None)` == `slot is None`
-                        inner = ast.Compare(left=cp_[0], ops=[ast.Is()], comparators=[cp_[2]])
-                        pol = not pol
-                    cp = compare_parts(inner)
-                    if cp and dotted(cp[0]) == '%s.%s' % (selfn, slot) and is_none(cp[2]) and cp[1] in (ast.Is, ast.Eq) and pol \
-                            and any(x is a for s in t.body for x in ast.walk(s)):
-                        retest = True
-                    elif dotted(inner) == '%s.%s' % (selfn, slot) and not pol and any(x is a for s in t.body for x in ast.walk(s)):
+                    atoms = set()
+                    _atoms(texpr, lab == 'true', atoms)
+                    if any(l == slot_path and ((op in ('Is', 'Eq') and r == 'None') or op == 'Falsy') for (l, op, r) in atoms):
                         retest = True
             if not retest:
-                why = 'inside the critical section the slot is assigned without re-testing that it is still empty'
+                why = 'inside the critical section the slot is assigned without re-testing (there, on the shared slot itself) that it is still empty'
         run.inst('ATOMIC.singleton-create', call, 'assign ' + slot, lock_ok and retest, why if not (lock_ok and retest) else '',
                  node=a, obligation=True)
-    # the acquire/release idiom instead of `with` is not recognised: refuse rather than guess
-    for n in walk_shallow(call.node):
-        if isinstance(n, ast.Call) and isinstance(n.func, ast.Attribute) and n.func.attr == 'acquire':
-            raise AnalysisError('SingletonDecorator.__call__ uses acquire()/release(): unknown locking idiom for this rule')
     # lock creation sites
     for name, where in locks.items():
         run.inst('ATOMIC.singleton-create', init, 'lock ' + name + ' created in ' + ','.join(where),
